@@ -54,7 +54,9 @@ def check(ctx):
                     skip = True
         ctx.ob("DOM.skip-completed", n, "if cur in completed: ... continue", skip)
         # the stack is only popped for cur when it is completed
-        pops = [p for p, _ in find("nodes.pop()", f, nested=False) if isinstance(enclosing_stmt(p), ast.Expr)]
+        # (pops inside the cycle branch unwind the stack on the way out and are not emissions)
+        cyc_ifs = [st for st in walk_no_nested(f) if isinstance(st, ast.If) and unparse(st.test).endswith(" in seen")]
+        pops = [p for p, _ in find("nodes.pop()", f, nested=False) if isinstance(enclosing_stmt(p), ast.Expr) and not any(in_subtree(p, ci_) for ci_ in cyc_ifs)]
         okp = True
         for p in pops:
             fp = inline_facts(f, p)
@@ -103,6 +105,46 @@ def check(ctx):
             ctx.ob("MPT.cycle-exit", f, "if nxt in seen", False, f"{len(cyc)} cycle triggers")
         sa = [s for s, sb in find("seen.add(M_c)", f, nested=False)]
         ctx.ob("DOM.seen-add", f, "seen.add(cur) when a node is first expanded", len(sa) == 1 and dominates(f, sa[0], n))
+    # ---------------- the start keys: the whole graph only when keys is None
+    for a, pname, by_none, by_truth, raw in none_default_rebinds(f):
+        if pname != "keys":
+            continue
+        if unparse(a.value) == "dsk":
+            ctx.ob("REACH.keys-default", a, "keys = dsk only when keys is None", by_none and not by_truth, "" if by_none and not by_truth else "an empty list of start keys (or a falsy key such as 0) is replaced by the whole graph: getcycle/isdag report cycles that are not reachable from the requested keys")
+    # ---------------- termination of the cycle reconstruction (every loop in the cycle branch has a
+    # termination argument from the catalogue; a graph walk without one can spin forever)
+    for st in walk_no_nested(f):
+        if not (isinstance(st, ast.If) and unparse(st.test).endswith("in seen")):
+            continue
+        loops_ = [l for l in ast.walk(st) if isinstance(l, (ast.While, ast.For))]
+        ctx.count("cycle_branch_loops", len(loops_))
+        for l in loops_:
+            body_txt = unparse(ast.Module(body=l.body, type_ignores=[]))
+            how = None
+            if isinstance(l, ast.While) and Pat("nodes[-1] != M_x").match(l.test) is not None and "nodes.pop()" in body_txt:
+                how = "pops the finite stack until the revisited node (which is on it)"
+            elif isinstance(l, ast.For) and isinstance(l.iter, ast.Name):
+                q = l.iter.id
+                apps = [c for c in ast.walk(l) if isinstance(c, ast.Call) and unparse(c.func) == f"{q}.append"]
+                guarded = True
+                for c in apps:
+                    x = unparse(c.args[0])
+                    facts = {(unparse(e), pol) for e, pol in cfg_of(f).facts(enclosing_stmt(c))}
+                    vis = [e for e, pol in facts if pol is False and e.startswith(f"{x} in ")]
+                    marks = [vs for vs in vis if f"{vs.split(' in ')[1]}[{x}] =" in body_txt or f"{vs.split(' in ')[1]}.add({x})" in body_txt]
+                    guarded = guarded and bool(marks)
+                if apps and guarded:
+                    how = "breadth-first worklist: a node is appended only if not yet recorded, and is recorded when appended"
+                elif not apps:
+                    how = "iterates a collection that the body does not extend"
+            elif isinstance(l, ast.While) and Pat("M_n is not None").match(l.test) is not None:
+                n_ = unparse(l.test.left)
+                steps = [a_ for a_ in ast.walk(l) if isinstance(a_, ast.Assign) and unparse(a_.targets[0]) == n_ and isinstance(a_.value, ast.Subscript) and unparse(a_.value.slice) == n_]
+                if steps:
+                    how = "follows the parent pointers written by the breadth-first search (each set once, root is None)"
+            elif isinstance(l, ast.For):
+                how = "iterates a collection that the body does not extend" if not any(isinstance(c, ast.Call) and isinstance(c.func, ast.Attribute) and c.func.attr in ("append", "extend", "add") and unparse(c.func.value) == unparse(l.iter) for c in ast.walk(l)) else None
+            ctx.ob("TERM.cycle-reconstruction", l, f"loop `{unparse(l).splitlines()[0]}` in the cycle branch terminates", how is not None, how or "graph walk with neither a visited set nor a recognised ranking: the stack it draws from holds unexplored siblings and duplicates, so the walk can revisit nodes forever (toposort/getcycle hang)")
     # final returns
     rs = returns(f)
     tail = [r for r in rs if not enclosing_loops(r)]
@@ -121,6 +163,8 @@ def check(ctx):
 
 
 VARIANTS = [
+    (CORE, "    if keys is None:\n        keys = dsk\n    elif not isinstance(keys, list):", "    if not keys:\n        keys = dsk\n    elif not isinstance(keys, list):", "REACH.keys-default"),
+    (CORE, "                                if dep in inplay and dep not in came_from:", "                                if dep in inplay:", "TERM.cycle-reconstruction"),
     (CORE, "            if next_nodes:\n                nodes.extend(next_nodes)\n            else:", "            if next_nodes:\n                nodes.extend(next_nodes)\n            if True:", "DOM.emit-after-children"),
     (CORE, "                completed.add(cur)\n                seen.remove(cur)", "                seen.remove(cur)", "PAIR.emit-completed"),
     (CORE, "                if nxt not in completed:\n                    if nxt in seen:", "                if True:\n                    if nxt in seen:", "DOM.child-filter"),
